@@ -745,6 +745,7 @@ var Families = map[string]func(*fw.Rng, Poison) Built{
 	"fielderr": famFieldErr,
 	"cells":    famCells,
 	"synerr":   famSynErr,
+	"implerr":  famImplErr,
 }
 
 // FamilyNames in a fixed order (these families share one generator stream).
@@ -752,4 +753,4 @@ var FamilyNames = []string{"modules", "objects", "locals", "warnings", "impl", "
 
 // LateFamilyNames: families added after the first workloads were recorded. They draw from their own
 // generator stream, so that the cases of the older families stay what they were for every seed.
-var LateFamilyNames = []string{"fielderr", "cells", "synerr"}
+var LateFamilyNames = []string{"fielderr", "cells", "synerr", "implerr"}
